@@ -228,6 +228,10 @@ RULES = [
 ]
 
 
+from . import shared
+RULES = RULES + shared.bundle('C19', [], ['sesans', 'direct_model'])
+
+
 def run(tier="quick", replay=None):
     return run_check(
         "C19", RULES, tier=tier, replay=replay,
